@@ -166,6 +166,11 @@ impl ClientLoop {
         self.enabled
     }
 
+    #[cfg(feature = "verif-hooks")]
+    pub(crate) fn set_next_tx_id(&mut self, value: u16) {
+        self.tx_id = TxId::new(value);
+    }
+
     async fn run_cmd(&mut self, cmd: Command, io: &mut PhysLayer) -> Result<(), SessionError> {
         match cmd {
             Command::Setting(setting) => {
